@@ -6,6 +6,10 @@ TECH = "bounded symbolic execution of the real Python code (symx facades over nu
 CLAIMED = {
  "C03": dict(text="Every identity is decided by z3 for all positive cell areas / edge weights, all link phases and all fields on each mesh topology of the family; 'unsat' within the stated bounds, a replayed counter-example otherwise.",
              note="exact real arithmetic; mesh topologies of the family (<= 9 sites, degree <= 6); scipy sparse assembly modelled (duplicates summed, assignment overwrites); z3 is trusted", ref="5/C03"),
+ "C04": dict(text="Gauge covariance of the real gradient/Laplacian builders and of the in-place refresh path (entry-wise), supercurrent invariance (edge-wise) and covariance of the real per-site update kernel are decided by z3 for arbitrary gauge functions, link phases, weights and fields on each mesh of the family; constant shifts of A on an integer-coordinate mesh.",
+             note="exact reals; phases as unit-circle pairs (integer-coefficient phase algebra); one-step covariance is compositional (operator covariance + kernel covariance + supercurrent invariance; LU solve is a function of its rhs); whole-run agreement of two runs from psi=1 under shifted A is not implied and not claimed", ref="5/C04"),
+ "C10": dict(text="For fully symbolic histories of potentials (bounded length) the real set_link_exponents build+refresh path is compared entry-wise and pattern-wise with a fresh build, for no pinned sites / pinned terminals / pinning disabled; the real TDGLSolver.update is run with scripted symbolic potentials (with and without screening) and the operators are compared with a rebuild at every moment of use. Includes the sparse-matrix dtype (complex vs real) casting semantics.",
+             note="history length <= 3 (+ induction on the refreshed state being a function of structure and last potential); scipy __setitem__ modelled (overwrite / insert / cast to matrix dtype); psi-update and Poisson solve opaque at step level", ref="5/C10"),
 }
 NA = {
 }
